@@ -102,6 +102,8 @@ def _foreign_body_ok(m, t, is_method):
     for n in ast.walk(m):
         if isinstance(n, ast.Name) and isinstance(n.ctx, (ast.Store, ast.Del)):
             local.add(n.id)
+        if isinstance(n, ast.With) and all(_plain_lock_item(it) for it in n.items):
+            continue          # (holding a lock attribute of the object: nothing that depends on where the code stands)
         if isinstance(n, (ast.YieldFrom, ast.Await, ast.Global, ast.Nonlocal, ast.Lambda, ast.Try, ast.With)) or (isinstance(n, (ast.FunctionDef, ast.ClassDef)) and n is not m):
             return None
         if isinstance(n, ast.Yield) and not _simple_generator(m):
@@ -1396,7 +1398,7 @@ class FuncCanon(object):
         changed = False
         for blk in _all_blocks(self.fn):
             top = blk is self.fn.body
-            if self.prop(blk) or self.lencomp(blk) or self.star(blk) or self.callsel(blk) or self.tuplepush(blk) or self.sumloop(blk) or self.listcomp(blk) or self.unroll(blk) or self.listbuild(blk) or self.copyinout(blk) or self.copyin(blk) or self.copyprop(blk) or self.lockwith(blk) or self.flagloop(blk) or self.ifflag(blk) or self.flageq(blk) or self.thread(blk) or self.deadstore(blk) or self.kw(blk) or self.split(blk) or self.retsplit(blk) or self.unindex(blk) or self.yieldsplit(blk) or self.forelse(blk) or self.dowhile(blk) or self.withsink(blk) or self.testsplit(blk) or self.rot(blk) or self.brk(blk, top) or self.wtop(blk) or self.ifs(blk) or self.sink(blk) or self.unpack(blk) or self.fwd(blk):
+            if self.prop(blk) or self.lencomp(blk) or self.star(blk) or self.callsel(blk) or self.tuplepush(blk) or self.sumloop(blk) or self.listcomp(blk) or self.unroll(blk) or self.listbuild(blk) or self.copyinout(blk) or self.copyin(blk) or self.copyprop(blk) or self.initsort(blk) or self.lockwith(blk) or self.flagloop(blk) or self.ifflag(blk) or self.flageq(blk) or self.thread(blk) or self.deadstore(blk) or self.kw(blk) or self.split(blk) or self.retsplit(blk) or self.unindex(blk) or self.yieldsplit(blk) or self.forelse(blk) or self.dowhile(blk) or self.withsink(blk) or self.testsplit(blk) or self.rot(blk) or self.brk(blk, top) or self.wtop(blk) or self.ifs(blk) or self.sink(blk) or self.unpack(blk) or self.fwd(blk):
                 return True
         return changed
 
@@ -1690,6 +1692,44 @@ class FuncCanon(object):
             blk[k:i + 1] = new
             self.bump("LISTCOMP")
             return True
+        return False
+
+    # -- INITSORT --------------------------------------------------------------------------------------------------
+    def initsort(self, blk):
+        """In a constructor, neighbouring `self.a = E` / `self.b = F` whose values have no effect and read nothing of self are independent: they are
+        put in alphabetical order of the attribute (so that two constructors that differ in the order of such lines read the same)."""
+        if self.fn.name != "__init__" or blk is not self.fn.body or not self.fn.args.args:
+            return False
+        selfn = self.fn.args.args[0].arg
+        PURE_CTORS = {"Lock", "RLock", "Queue", "bytearray", "dict", "list", "set", "tuple", "bytes", "int", "bool", "str"} | set(RECORDS)
+
+        def simple(st):
+            if not (isinstance(st, ast.Assign) and len(st.targets) == 1 and isinstance(st.targets[0], ast.Attribute) and isinstance(st.targets[0].value, ast.Name) and st.targets[0].value.id == selfn):
+                return None
+            for n in ast.walk(st.value):
+                if isinstance(n, ast.Call):
+                    if not (isinstance(n.func, ast.Name) and n.func.id in PURE_CTORS and not self.stores.get(n.func.id) and n.func.id not in self.params):
+                        return None
+                elif isinstance(n, ast.Name) and n.id == selfn:
+                    return None
+                elif isinstance(n, (ast.Await, ast.Yield, ast.YieldFrom, ast.Lambda, ast.NamedExpr, ast.Subscript, ast.IfExp, ast.BoolOp, ast.Compare)):
+                    return None
+                elif isinstance(n, ast.Attribute) and _dump(n) not in NONNULL_CONSTS and not (isinstance(n.value, ast.Name) and n.value.id == "constants"):
+                    return None
+            return st.targets[0].attr
+        i = 0
+        while i < len(blk):
+            j = i
+            names = []
+            while j < len(blk) and simple(blk[j]) is not None:
+                names.append(simple(blk[j]))
+                j += 1
+            if j - i >= 2 and len(set(names)) == len(names) and names != sorted(names):
+                run = sorted(blk[i:j], key=lambda st: st.targets[0].attr)
+                blk[i:j] = run
+                self.bump("INITSORT")
+                return True
+            i = max(j, i + 1)
         return False
 
     # -- COPYPROP --------------------------------------------------------------------------------------------------
